@@ -198,6 +198,53 @@ Fixpoint arun (ideal : bool) (a : list Z) (l : list sop) : list ob :=
   | o :: l' => let '(a', r) := astep ideal a o in r :: arun ideal a' l'
   end.
 
+(* ---- an ordinary (non-index) property on the wrapper of a bridged slice / array ----
+   s.foo = v, s.foo, 'foo' in s, delete s.foo: these go to the generic object
+   behaviour (goSliceDelete / goArrayDelete end in objectDelete).  The wrapper
+   of a slice handed over by value, and of a *[N]T, is one persistent object;
+   t.S makes a fresh wrapper on every access, so nothing sticks there. *)
+Inductive xop :=
+| XS (o : sop)
+| XSet (v : Z) | XGet | XDel | XHas.
+
+Definition xprop_step (persistent : bool) (xp : option Z) (o : xop) : option Z * ob :=
+  match o with
+  | XSet v => ((if persistent then Some v else xp), o_ok)
+  | XGet => (xp, match xp with Some v => if persistent then o_num v else o_undef | None => o_undef end)
+  | XDel => (None, o_bool true)
+  | XHas => (xp, o_bool (match xp with Some _ => persistent | None => false end))
+  | XS _ => (xp, o_undef)
+  end.
+
+Definition sxstep (addr ideal : bool) (st : sst * option Z) (o : xop) : (sst * option Z) * ob :=
+  let '(s, xp) := st in
+  match o with
+  | XS JKeys =>
+      (st, o_num (h_len (wrapper addr s) + match xp with Some _ => if addr then 0 else 1 | None => 0 end))
+  | XS o' => let '(s', r) := sstep addr ideal s o' in ((s', xp), r)
+  | _ => let '(xp', r) := xprop_step (negb addr) xp o in ((s, if addr then None else xp'), r)
+  end.
+
+Fixpoint sxrun (addr ideal : bool) (st : sst * option Z) (l : list xop) : list ob :=
+  match l with
+  | [] => []
+  | o :: l' => let '(st', r) := sxstep addr ideal st o in r :: sxrun addr ideal st' l'
+  end.
+
+Definition axstep (ideal : bool) (st : list Z * option Z) (o : xop) : (list Z * option Z) * ob :=
+  let '(a, xp) := st in
+  match o with
+  | XS JKeys => (st, o_num (Z.of_nat (length a) + match xp with Some _ => 1 | None => 0 end))
+  | XS o' => let '(a', r) := astep ideal a o' in ((a', xp), r)
+  | _ => let '(xp', r) := xprop_step true xp o in ((a, xp'), r)
+  end.
+
+Fixpoint axrun (ideal : bool) (st : list Z * option Z) (l : list xop) : list ob :=
+  match l with
+  | [] => []
+  | o :: l' => let '(st', r) := axstep ideal st o in r :: axrun ideal st' l'
+  end.
+
 (* ================= maps ( map[string]int ) ================= *)
 (* keys are small integers standing for distinct strings; the store is an association list *)
 Inductive mop :=
